@@ -5,7 +5,6 @@ import sys
 import warnings
 
 PKG_PATH = os.environ.get("BBSIM_PKG_PATH", "/repo/blackbird_python")
-HAND_WRITTEN = ("__init__.py", "listener.py", "auxiliary.py", "program.py", "utils.py", "error.py")
 
 _state = {"imported": False, "warm": False}
 
@@ -116,6 +115,11 @@ def warm_up(corpus_dir):
     if before != after:
         raise RuntimeError("zygote warm-up touched blackbird module state: %r" %
                            [k for k in after if before.get(k) != after[k]])
+    # everything allocated so far is permanent: a child's collector only ever looks at what
+    # the child itself allocates, so that its timing is a function of the plan alone
+    import gc
+    gc.collect()
+    gc.freeze()
     _state["warm"] = True
 
 
